@@ -73,6 +73,7 @@ class NativeMatch:
 # source access
 
 _fn_cache = {}
+_TABLE_CACHE = {}
 
 
 def get_funcdef(fn):
@@ -1079,7 +1080,35 @@ class Interp:
                 raise PyRaise(TypeError, ("'NoneType' object is not subscriptable",))
         if isinstance(idx, SOpt):
             idx = self.unopt(idx)
-        if isinstance(obj, dict) and isinstance(idx, Sym):
+        if isinstance(obj, dict) and isinstance(idx, SEnum):
+            # constant table (module-level dict of the spec / repo) looked up with a symbolic Enum
+            # key: the ite-chain is built once per (table, key term) and memoised
+            ck = (id(obj), idx.t.get_id())
+            hit = _TABLE_CACHE.get(ck)
+            if hit is not None and hit[0] is obj and hit[1].eq(idx.t):
+                if hit[3] is not None:
+                    if self.ctx.decide(hit[3]):
+                        raise PyRaise(KeyError, (idx,))
+                return hit[2]
+            if all(is_native(v) and not isinstance(v, (list, dict, set)) for v in obj.values()):
+                cands = [k for k in obj if isinstance(k, idx.cls)]
+                missing = [m for m in idx.cls if m not in obj]
+                miss = None
+                if missing:
+                    miss = b_or(*[mk_bool(idx.t == T(m)) for m in missing])
+                    if self.ctx.decide(miss):
+                        raise PyRaise(KeyError, (idx,))
+                if cands:
+                    try:
+                        acc = obj[cands[-1]]
+                        for k in reversed(cands[:-1]):
+                            acc = V.merge(z3.simplify(idx.t == T(k)), obj[k], acc)
+                        _TABLE_CACHE[ck] = (obj, idx.t, acc, miss)
+                        return acc
+                    except CannotMerge:
+                        pass
+            obj = SDict(obj)
+        elif isinstance(obj, dict) and isinstance(idx, Sym):
             obj = SDict(obj)
         if isinstance(obj, list) and isinstance(idx, Sym):
             obj = SList(obj)
@@ -1205,6 +1234,8 @@ class Interp:
     def setitem(self, obj, idx, val):
         if isinstance(obj, SOpt):
             obj = self.unopt(obj)
+        if isinstance(idx, SOpt):
+            idx = self.unopt(idx)
         if isinstance(obj, SDict):
             if isinstance(idx, SEnum):
                 members = list(idx.cls)
